@@ -252,6 +252,7 @@ func genC04(r *core.Rand, env *core.Env, run int) *Scenario {
 	sc := &Scenario{Kind: "C04"}
 	sc.Knobs = Knobs{ShardNum: pick(r, []int{1, 2, 8, 1024}), Databases: pick(r, []int{1, 2, 16}), MaxSteps: 30000, IdleBudget: 60,
 		Strategy: pick(r, []int{0, 1}), Preload: c04Preload()}
+	sc.Knobs.WriterPref = r.Bool(0.3)
 	att := ClientProg{Name: "c0", Role: "attacker", Pipeline: 1, Chunked: r.Bool(0.1)}
 	by := ClientProg{Name: "c1", Role: "bystander", Pipeline: 1}
 	if r.Bool(0.25) {
